@@ -124,7 +124,7 @@ def check(case: dict[str, Any], rec: Any) -> None:
         if sw is None or not any(abs(sw - c) <= 1e-6 for c in ref3["candidates"]):
             rec.violation("stored-target-stale-or-wrong-after-an-update", w3)
             break
-        if r is not None and abs(r.as_watts() - sw) > 1e-6:
+        if r is not None and not abs(r.as_watts() - sw) <= 1e-6:
             rec.violation("returned-target-differs-from-stored-target", w3)
             break
         t_prev = sw
@@ -141,7 +141,7 @@ def check(case: dict[str, Any], rec: Any) -> None:
         t2 = _tgt(m2, sb)
         rec.count("null_proposal_checks")
         rec.bucket("null-proposal-added")
-        if t2 is None or t is None or abs(t2 - t) > 1e-6:
+        if t2 is None or t is None or not abs(t2 - t) <= 1e-6:
             rec.violation("null-proposal-changes-target", {"without": t, "with": t2, "null_priority": slot})
         for p in props:
             b1 = m.get_status(pm.CID, p["prio"], sb).bounds
